@@ -399,7 +399,6 @@ def _fpval(v):
 
 
 def instances(tier):
-    sys.path.insert(0, "/repo")
     import funsor.ops as ops
     shapes = SHAPES_Q if tier == "quick" else SHAPES_T
     out = []
